@@ -13,7 +13,8 @@ RULE = (
     'placement {flat, one compartment, split over two compartments with '
     '".." dependencies, depth 2} x process sets {ts 1; ts 1 and 2} x '
     'update(3); plus dynamic worlds where a step deletes a leaf step of a '
-    'later layer or generates a compartment holding a step mid-phase. '
+    'later layer, generates a compartment holding a step mid-phase, or '
+    'adds/deletes a child under a glob port that every step observes. '
     'Oracle on the trace: phase placement, once-per-phase with timestep 0, '
     'dependency order with data-flow evidence (tokens), derivers first in '
     'declaration order, equal snapshots per generation, steps observe this '
@@ -129,12 +130,16 @@ def world(n, edges, n_derivers, deriver_kind, placement, tss, dynamic=None):
         topology[pid] = {'priv': (f's{i}',), 'shared': ('shared',)}
 
     def step_spec(name, cls='S'):
-        return {'cls': cls, 'pid': name,
+        spec = {'cls': cls, 'pid': name,
                 'schema': {'outs': {k: dict(v) for k, v in
                                     outs_schema.items()},
                            'shared': {k: dict(v) for k, v in
                                       shared_schema.items()}},
                 'update': {'outs': {f'v_{name}': '$tokval'}}}
+        if dynamic == 'kids':
+            spec['schema']['kids'] = {'*': {'v': {'_default': 0}}}
+            spec['log_snapshot'] = True
+        return spec
 
     # derivers first in declaration order
     for k, dn in enumerate(dnames):
@@ -174,8 +179,20 @@ def world(n, edges, n_derivers, deriver_kind, placement, tss, dynamic=None):
                                'initial_state': {}}]}}},
                 '$else': {'outs': {'v_a': '$tokval'}}}
             extra = {'root': rel(loc, ())}
+        elif dynamic == 'kids' and i == 0:
+            # step a adds a child in its 2nd run and deletes it in its 3rd
+            spec['update'] = {
+                '$n': {1: {'outs': {'v_a': '$tokval'},
+                           'kids': {'_add': [{'key': 'k1',
+                                              'state': {'v': 5}}]}},
+                       2: {'outs': {'v_a': '$tokval'},
+                           'kids': {'_delete': ['k1']}}},
+                '$else': {'outs': {'v_a': '$tokval'}}}
+            extra = {}
         else:
             extra = {}
+        if dynamic == 'kids':
+            extra = dict(extra, kids=rel(loc, ('kids',)))
         put(steps, loc + (name,), spec)
         topo = {'outs': rel(loc, ('outs',)), 'shared': rel(loc, ('shared',))}
         topo.update(extra)
@@ -183,9 +200,10 @@ def world(n, edges, n_derivers, deriver_kind, placement, tss, dynamic=None):
         deps = [rel(loc, location(placement, a) + (NAMES[a],))
                 for (a, b) in edges if b == i]
         put(flow, loc + (name,), deps)
+    state = {'kids': {'k0': {'v': 1}}} if dynamic == 'kids' else {}
     return {'processes': processes, 'steps': steps, 'flow': flow,
             'topology': topology, 'script': [('update', 3)],
-            'family': 'F', 'n': n, 'edges': tuple(edges),
+            'state': state, 'family': 'F', 'n': n, 'edges': tuple(edges),
             'derivers': n_derivers, 'deriver_kind': deriver_kind,
             'placement': placement, 'tss': tuple(tss), 'dynamic': dynamic}
 
@@ -193,6 +211,7 @@ def world(n, edges, n_derivers, deriver_kind, placement, tss, dynamic=None):
 def phases(trace):
     """Split the trace into step phases and the slots where they belong."""
     out = []          # list of dicts: {'slot': ..., 'invokes': [...]}
+    last_snap = None
     cur = None
     slot = None
     last_clock_idx = None
@@ -207,9 +226,13 @@ def phases(trace):
                 out.append(cur)
             cur['invokes'].append(
                 {'pid': ev[2], 'n': ev[3], 't': ev[4], 'ts': ev[5],
-                 'states': ev[6], 'uid': ev[1], 'idx': idx})
+                 'states': ev[6], 'uid': ev[1], 'idx': idx,
+                 'snap': last_snap[5] if last_snap is not None and
+                 last_snap[1] == ev[1] else None})
             continue
-        if k == 'return' or (k == 'cond' and ev[8]):
+        if k == 'return' or (k == 'cond' and ev[8]) or k == 'snap':
+            if k == 'snap':
+                last_snap = ev
             continue
         cur = None
         if k == 'build-begin':
@@ -346,6 +369,27 @@ def check(spec, ex):
                       f'phase {phase_no}: {name} read v_{dn}='
                       f'{st.get("v_" + dn)}')
                     return out
+        # glob views are current: a dependent step already sees what a
+        # dependency added / deleted in this phase
+        if spec['dynamic'] == 'kids':
+            for i in invs:
+                view = i['states'].get('kids')
+                actual = {k: {'v': x['v']} for k, x in
+                          (i['snap'] or {}).get('kids', {}).items()}
+                if i['snap'] is not None and view != actual:
+                    V('C05.observe', 'stale-glob-view-in-phase',
+                      f'phase {phase_no}: step {i["pid"]} sees kids '
+                      f'{sorted(view)} but the hierarchy holds '
+                      f'{sorted(actual)}')
+                    return out
+                j = names.index(i['pid']) if i['pid'] in names else None
+                if j is not None and 0 in anc[j]:
+                    want = phase_no == 1
+                    if ('k1' in view) != want:
+                        V('C05.observe', 'dependency-structure-not-seen',
+                          f'phase {phase_no}: step {i["pid"]} depends on a '
+                          f'but sees kids {sorted(view)}')
+                        return out
         # same generation => same snapshot
         by_gen = {}
         for j, name in enumerate(names):
@@ -353,7 +397,8 @@ def check(spec, ex):
                 by_gen.setdefault(gen[j], []).append(invs[pos[name]])
         for g, members in by_gen.items():
             view = lambda m: fw.jdump(  # noqa
-                {k: m['states'][k] for k in ('outs', 'shared')})
+                {k: m['states'][k] for k in ('outs', 'shared', 'kids')
+                 if k in m['states']})
             ref = view(members[0])
             for m in members[1:]:
                 if view(m) != ref:
@@ -438,6 +483,10 @@ def jobs(ctx):
                                     'delete'))
         for edges in dags[n][:40 if ctx.quick else None]:
             out.append((n, edges, 0, 'steps', 'flat', (1,), 'generate'))
+        for edges in dags[n]:
+            for placement in (('flat', 'split') if ctx.quick
+                              else PLACEMENTS):
+                out.append((n, edges, 0, 'steps', placement, (1,), 'kids'))
     if not ctx.quick:
         for edges in all_dags(5):
             out.append((5, edges, 0, 'steps', 'flat', (1,)))
